@@ -487,6 +487,7 @@ func runC14(c *Ctx) {
 	c.rule("R7", "tag subsets: unknown tag is an error; no tag means all upstreams", 2)
 	if q := c.fn(relForward, "Forward", "QuickConfigureExec"); q != nil {
 		unknownErr, allDefault := false, false
+		wholeListElsewhere := false
 		eachInstr(q, func(in ssa.Instruction) {
 			if lk, ok := in.(*ssa.Lookup); ok {
 				if k, _ := loadedField(lk.X); k == relForward+".Forward.tag2Upstream" {
@@ -508,19 +509,24 @@ func runC14(c *Ctx) {
 			}
 			if u, ok := in.(*ssa.UnOp); ok && u.Op == token.MUL {
 				if k, _ := fieldKey(u.X); k == relForward+".Forward.us" {
+					under := false
 					for _, g := range guardsOfInstr(in) {
 						if cm, ok := g.asCmp(); ok && cm.Op == token.EQL {
 							if cl, ok := cm.X.(*ssa.Call); ok && callName(cl) == "builtin:len" && cl.Call.Args[0] == ssa.Value(q.Params[1]) {
 								if n, ok := constInt(cm.Y); ok && n == 0 {
 									allDefault = true
+									under = true
 								}
 							}
 						}
+					}
+					if !under {
+						wholeListElsewhere = true
 					}
 				}
 			}
 		})
 		c.check(unknownErr, "unknown-tag", q.Pos(), "an unknown tag is rejected", "an unknown upstream tag is silently ignored")
-		c.check(allDefault, "no-tag-all", q.Pos(), "no tag selects all upstreams", "an empty tag list does not select all upstreams")
+		c.check(allDefault && !wholeListElsewhere, "no-tag-all", q.Pos(), "the whole upstream list is used exactly when no tag is given", "the whole upstream list is used without / outside the 'no tag given' test: a tag subset can silently become all upstreams (e.g. when the tag list is as long as the upstream list)")
 	}
 }
